@@ -776,12 +776,19 @@ class BlobStorage(BlobStorageMixin):
         self._blob_tpc_finish()
         return tid
 
-    def tpc_abort(self, *arg, **kw):
+    def tpc_abort(self, transaction, *arg, **kw):
         # We need to override the base storage's abort instead of
         # providing an _abort method because methods found on the proxied
         # object aren't rebound to the proxy
-        self.__storage.tpc_abort(*arg, **kw)
-        self._blob_tpc_abort()
+        #
+        # The dirty blobs belong to the transaction being committed: like
+        # the wrapped storage, ignore an abort for any other transaction.
+        tpc_transaction = getattr(self.__storage, 'tpc_transaction', None)
+        in_progress = (tpc_transaction is None
+                       or tpc_transaction() is transaction)
+        self.__storage.tpc_abort(transaction, *arg, **kw)
+        if in_progress:
+            self._blob_tpc_abort()
 
     def _packUndoing(self, packtime, referencesf):
         # Walk over all existing revisions of all blob files and check
